@@ -21,7 +21,7 @@
 From Coq Require Import List ZArith Bool.
 Import ListNotations.
 From LC Require Import Base Tree FlexEngine Chunked FlexBuf FlexBufFacts LexStream Lexer Parser Reader ScannerCert.
-From LC.gen Require Import Consts.
+From LC.gen Require Import Consts ScannerTables.
 Local Open Scope Z_scope.
 
 (* however the input is cut into chunks (however the stream delivers its data), the matcher selects what it
@@ -133,3 +133,12 @@ Theorem C20_config_read_file : forall atof FS c path chunks chunks_of,
   config_read_file_stream atof BUF RBUF chunks_of FS c path chunks = config_read_file atof FS c path.
 Proof. exact LexStream.C20_config_read_file. Qed.
 Print Assumptions C20_config_read_file.
+
+(* the tie of the hand transcription: the buffer machinery of the compiled scanner (yy_get_next_buffer, yy_get_previous_state,
+   yy_try_NUL_trans, yyrestart, the buffer creation / switching / scan_string functions, the YY_INPUT macro, the end-of-buffer
+   action and the matching loop of yylex) is, token for token (comments, #line directives and white space aside), the text that
+   FlexBuf.v and FlexEngine.v were transcribed from (tools/skel_ref/flex_skeleton.json; compared by tools/gen_tables.py on
+   every run) *)
+Theorem C20_skeleton_text_as_transcribed : skel_buffer_code_as_transcribed = true.
+Proof. vm_compute. reflexivity. Qed.
+Print Assumptions C20_skeleton_text_as_transcribed.
